@@ -143,6 +143,9 @@ func verdictOf(res string) string {
 		if i := strings.Index(last, "@"); i > 0 {
 			return last[:i]
 		}
+		if i := strings.Index(last, ":"); i > 0 {
+			return last[:i]
+		}
 		return last
 	case strings.HasPrefix(res, "PANIC"):
 		return "PANIC"
@@ -239,10 +242,10 @@ func Run(args []string) {
 		return
 	}
 	rep := vh.NewReport("c11-history",
-		"histories of <= 12 public operations (object creations not counted) over 1..3 root schemas drawn from a pool of 33 root texts + 15 "+
+		"histories of <= 12 public operations (object creations not counted) over 1..3 root schemas drawn from a pool of "+fmt.Sprint(len(Roots()))+" root texts + "+fmt.Sprint(len(Schemas)-len(Roots()))+" "+
 			"user-type texts (valid, syntactically / semantically invalid, failing in an added type, enum rules, regex types, allOf, or, key "+
 			"shortcuts, recursion, self-added type), their AddRule/AddType set-up interleaved with Check/Validate/Len/Example/GetAST/"+
-			"UsedUserTypes, late AddType/AddRule, 14 documents (Check/Len/NextLexeme), 6 enum rules, 6 regex types; type, rule and document "+
+			"UsedUserTypes, late AddType/AddRule, "+fmt.Sprint(len(Docs))+" documents incl. malformed / trailing bytes (Check/Len/NextLexeme, Check before Validate on one object), 6 enum rules, 6 regex types; type, rule and document "+
 			"objects are shared between schemas of a history; every result is compared with the same operation on fresh objects (same "+
 			"AddType/AddRule prefix), handed-out values are re-read at the end; whole run repeated in-process and in 3 child processes. "+
 			"Non-trivial = some object is the target of >= 2 non-set-up operations or the argument of >= 2 operations")
